@@ -301,7 +301,8 @@ def run_case(case: dict, seed: int) -> dict:
     root = fresh_root("os-")
     try:
         alg = case.get("alg", "md5")
-        uni = Universe(FILES, DIRS, seed=seed + case.get("useed", 0), pads=case.get("pads", 0), no_crlf=alg != "md5")
+        uni = Universe(FILES, DIRS, seed=seed + case.get("useed", 0), pads=case.get("pads", 0), no_crlf=alg != "md5",
+                       entry_key="md5" if alg.startswith("md5") else alg)
         w = World(root, uni, STORES, idx_store="remote")
         w.alg = alg
         init = {s: {x: st for x, st in objs.items() if st != "none"} for s, objs in case["init"].items()}
@@ -820,6 +821,10 @@ def check_C06(run: core.Run, replay=None):
             op = {"op": "Gc", "s": c["s"], "used": c["used"], "foreign": c["foreign"], "ord": c["ord"], "shallow": c["shallow"],
                   "dry": c["dry"], "ro": c["ro"], "cs": c["cs"], "cro": c["cro"]}
             cases.append({"init": c["init"], "ops": [op], "kind": "gc"})
+            if c["s"] == "remote" and len(cases) % 4 == 0 and not c["foreign"]:
+                # a store keyed by what a cloud reports about the file (hash_name "etag" / "checksum": the default of stores on
+                # s3, gs, http): gc never hashes, the names are just names
+                cases[-1]["alg"] = ("etag", "checksum")[len(cases) % 8 // 4]
         cases += sim_cases("ObjectStore_sim_gc.cfg", 150 if quick else 1500, 10, run.seed + 5)
         run.extra["generated_cases"] = {k: len(v) for k, v in gen.items()}
     traces = execute(cases, run.seed)
